@@ -6,7 +6,7 @@ import stores_lib as sl
 
 PROP = "C04"
 CHECKER = "make -C /verif/coq Props/C04.vo (full .vo build of the cone) && coqc -Q /verif/coq GMQ Props/C04.v"
-CLAUSES = {"durable", "order", "phantom", "not-early", "deleted", "purged", "length", "from"}
+CLAUSES = {"durable", "order", "phantom", "not-early", "deleted", "purged", "length", "from", "confirmed"}
 
 
 def plan(quick, seed):
